@@ -367,6 +367,55 @@ def kind_of(ctx: Ctx, fn: FunctionInfo, e: ast.AST, depth: int = 0) -> str:
     return "?"
 
 
+RANDOM_SOURCE_CLS = "geneticengine.random.sources.RandomSource"
+
+
+def _float_forcing(ctx: Ctx, f: FunctionInfo, e: ast.AST, bounds: set, depth: int = 0) -> Optional[bool]:
+    """True: the value is a float whatever the kind of the bound parameters (a true division, float arithmetic with a float
+    operand, float(), a float-returning draw); False: it is a bound parameter itself (or int arithmetic on bounds only);
+    None: not followed"""
+    if isinstance(e, ast.Constant):
+        return isinstance(e.value, float)
+    if isinstance(e, ast.Name):
+        if e.id in bounds:
+            return False
+        defs = [a for a in walk_local(f.node) if isinstance(a, ast.Assign) and len(a.targets) == 1 and isinstance(a.targets[0], ast.Name)
+                and a.targets[0].id == e.id]
+        if len(defs) == 1 and depth < 4:
+            return _float_forcing(ctx, f, defs[0].value, bounds, depth + 1)
+        return None
+    if isinstance(e, ast.BinOp):
+        if isinstance(e.op, ast.Div):
+            return True
+        l, r = _float_forcing(ctx, f, e.left, bounds, depth + 1), _float_forcing(ctx, f, e.right, bounds, depth + 1)
+        if isinstance(e.op, (ast.Add, ast.Sub, ast.Mult, ast.Pow)):
+            if l is True or r is True:
+                return True
+            if l is False and r is False:
+                return False
+            if isinstance(e.left, ast.Constant) and isinstance(e.left.value, int) and r is False:
+                return False
+            if isinstance(e.right, ast.Constant) and isinstance(e.right.value, int) and l is False:
+                return False
+        return None
+    if isinstance(e, ast.IfExp):
+        a, b = _float_forcing(ctx, f, e.body, bounds, depth + 1), _float_forcing(ctx, f, e.orelse, bounds, depth + 1)
+        return False if False in (a, b) else True if a is True and b is True else None
+    if isinstance(e, ast.Call):
+        nm = call_name(e)
+        if nm == "float":
+            return True
+        if nm in ("random", "uniform", "normalvariate", "gauss", "random_float"):
+            k = kind_of(ctx, f, e)
+            return True if k == "float" or nm in ("random", "uniform", "normalvariate", "gauss") else None
+        if nm in ("max", "min") and e.args:
+            vs = [_float_forcing(ctx, f, a, bounds, depth + 1) for a in e.args]
+            return False if False in vs else True if all(v is True for v in vs) else None
+        k = kind_of(ctx, f, e)
+        return True if k == "float" and not any(isinstance(x, ast.Name) and x.id in bounds for x in ast.walk(e)) else None
+    return None
+
+
 def rule_r3(ctx: Ctx) -> None:
     prog = ctx.prog
     n = 0
@@ -388,6 +437,20 @@ def rule_r3(ctx: Ctx) -> None:
                     why = f"'{norm(r.value)[:60]}' has kind {k}, but {meth} must return exactly {want}: a {k} value is placed in a {want}-typed field"
                 ctx.ob("C01.R3", f, r, f"{f.cls.name if f.cls else ''}.{meth} returns exactly {want}", ok, why, witness={"kind": k})
     ctx.floor("C01.R3", n, 6, "decider base-type return statements")
+    # random sources: random_float must produce a float whatever the kind of the bounds it is given - refinements forward
+    # their bounds as written (FloatRange(0, 9) holds ints), so a bound handed back unchanged puts an int into a float field
+    nf = 0
+    for f in prog.implementations(RANDOM_SOURCE_CLS, "random_float"):
+        bounds = set(f.params[1:3])
+        for r in walk_local(f.node):
+            if not (isinstance(r, ast.Return) and r.value is not None):
+                continue
+            nf += 1
+            ok = _float_forcing(ctx, f, r.value, bounds)
+            ctx.ob("C01.R3", f, r, f"{f.cls.name if f.cls else ''}.random_float returns a float whatever the kind of its bounds", ok,
+                   "" if ok else f"'{norm(r.value)[:60]}' hands a bound back as it was given: with integer bounds (FloatRange(0, 9)) an int is "
+                                 f"placed in a float-typed field")
+    ctx.floor("C01.R3", nf, 3, "random_float return statements of random sources")
     # base-type branches of the creators
     for fname in (CREATE_NODE, STACK):
         fn = ctx.fn(fname)
@@ -619,6 +682,9 @@ def _caught_by_all_callers(f: FunctionInfo, name: str, callers, reach, depth: in
 
 
 def run(ctx: Ctx) -> None:
+    from .c02 import list_refinement_rule
+    ctx.rule("C01.R9", "list refinements create every element as a value of the declared element type: nested lists stay lists (shared with C02.R7)")
+    ctx.floor("C01.R9", list_refinement_rule(ctx, "C01.R9"), 8, "list refinement x element type")
     from .creationmodel import creation_rule
     ctx.rule("C01.R8", "over ALL decision sequences on the creation model grammars, every program depth-limited creation produces is well-typed")
     ctx.floor("C01.R8", creation_rule(ctx, "C01.R8", "typed"), 20, "model grammar x decider x limit")
